@@ -69,6 +69,13 @@ var vxC19Ctx = [][2]string{
 	{"if x { // then\n\ty()\n} else { // otherwise", "\n\tz()\n}\n"},
 	{"type T struct {\n\t// lead\n\tA int // line", "\n\tB int\n}\n"},
 	{"x := a?:/* dflt */", "1\n"},
+	// one-line type bodies
+	{"type T struct{ A int", " }\n"},
+	{"type T struct{ A int `json:\"a\"`", " }\n"},
+	{"x := struct{ *B `a`", " }{}\n"},
+	{"type I interface{ M()", " }\n"},
+	{"x := []struct{ A, B int }{{1,", " 2}}\n"},
+	{"var f func(a int, b ...string)", "\n"},
 }
 
 func vxFmtSig(n ast.Node) string {
